@@ -19,7 +19,8 @@ Proof.
   intros c p b p' fl H. unfold process_nhcb in H.
   destruct (p_state p); try (inversion H; auto; fail).
   destruct (convert (p_tmp p)) as [n|]; [|inversion H; auto].
-  destruct (validate n); inversion H; subst; [right; eauto | auto].
+  destruct (validate n); [inversion H; subst; right; eauto|].
+  destruct (fix_validate c); inversion H; auto.
 Qed.
 
 Lemma process_nhcb_not_collecting : forall c p,
@@ -280,9 +281,9 @@ Proof.
   destruct Hu as [Hh [Hp Hn]]. rewrite Hh, Hp, Hn. reflexivity.
 Qed.
 
-Lemma next_ptr_cnt : forall e, eb_cnt (next_ptr e) = eb_cnt e.
+Lemma next_ptr_cnt : forall z e, eb_cnt (next_ptr z e) = eb_cnt e.
 Proof.
-  intros e. unfold next_ptr.
+  intros z e. unfold next_ptr.
   destruct (Z.of_nat (eb_cnt e) =? Z.of_nat (eb_len e) - 1); [reflexivity|].
   destruct (eb_len e =? List.length (eb_arr e))%nat; reflexivity.
 Qed.
